@@ -49,10 +49,10 @@ fn other_key(pool: &[KeyInfo], r: &mut Rng, avoid: &[usize]) -> usize {
 /// Inject one fault of the family relevant to `prop` into a valid scenario.
 pub(crate) fn inject(prop: &str, s: &mut Scenario, r: &mut Rng, pool: &[KeyInfo]) -> Option<Fault> {
     let kinds: &[&str] = match prop {
-        "C01" => &["caller_empty", "caller_superset", "caller_disjoint", "caller_alias", "owner_sig_missing", "owner_sig_corrupt", "owner_sig_mislabel", "owner_sig_duplicated", "owner_sig_duplicated_apart", "layout_tampered", "layout_command_resplit", "not_a_layout", "extra_sig", "none"],
+        "C01" => &["caller_empty", "caller_superset", "caller_disjoint", "caller_alias", "owner_sig_missing", "owner_sig_corrupt", "owner_sig_mislabel", "owner_sig_duplicated", "owner_sig_duplicated_apart", "layout_tampered", "layout_command_resplit", "not_a_layout", "extra_sig", "layout_keys_refiled", "layout_keys_refiled", "none"],
         "C06" => &["expired_1s", "expired_long", "expired_centuries", "expires_now", "expires_plus1", "expires_far_future", "offset_notation", "offset_expired", "sub_expired", "sub_expired_surplus", "sub_expired_surplus", "none"],
-        "C02" => &["link_removed", "link_wrong_signer", "link_mislabel", "link_tampered", "link_corrupt", "link_unauthorized", "key_not_in_table", "link_garbage", "link_misfiled", "link_cosigned_forgery", "cosigned_next_to_differing", "threshold_zero_nolinks", "threshold_zero_norules", "threshold_zero_norules", "threshold_zero_onelink", "threshold_raised", "link_wrong_type", "ghost_authorized_prefix", "ghost_authorized_prefix", "twin_unauthorized", "twin_unauthorized", "none"],
-        "C07" => &["disagree_product_digest", "disagree_material_path", "disagree_extra_entry", "disagree_t1", "agree_extra_differs", "cosigned_next_to_differing", "disagree_path_spelling", "disagree_alias_entry", "disagree_algorithm_set", "none"],
+        "C02" => &["link_removed", "link_wrong_signer", "link_mislabel", "link_tampered", "link_corrupt", "link_unauthorized", "key_not_in_table", "link_garbage", "link_misfiled", "link_cosigned_forgery", "cosigned_next_to_differing", "threshold_zero_nolinks", "threshold_zero_norules", "threshold_zero_norules", "threshold_zero_onelink", "threshold_raised", "link_wrong_type", "ghost_authorized_prefix", "ghost_authorized_prefix", "twin_unauthorized", "twin_unauthorized", "duplicate_step_unmet", "duplicate_step_unmet", "none"],
+        "C07" => &["disagree_product_digest", "disagree_material_path", "disagree_extra_entry", "disagree_t1", "agree_extra_differs", "cosigned_next_to_differing", "disagree_path_spelling", "disagree_alias_entry", "disagree_algorithm_set", "disagree_algorithm_set", "disagree_empty_entry", "none"],
         "C13" => &["differing_links_t1", "differing_links_t1_rules", "none", "link_removed", "disagree_product_digest", "disagree_extra_entry", "cosigned_next_to_differing", "cosigned_next_to_differing", "digest_partial_agreement", "digest_partial_agreement"],
         "C08" => &["insp_exit", "insp_notfound", "insp_rule", "insp_rule_named_like_step", "pre_expired", "pre_badsig", "pre_link_removed", "pre_rule", "pre_disagree", "sub_expired", "sub_expired_surplus", "sub_tampered", "none"],
         "C15" => &["no_steps", "no_steps_inner", "sub_wrong_signer", "sub_expired", "sub_missing_link", "sub_links_in_parent", "sub_rule", "sub_unauthorized_inner", "sub_tampered", "sub_insp_exit", "sub_insp_rule", "sub_dir_misnamed", "sub_dir_misnamed", "sub_misfiled", "sub_misfiled", "sub_rule_surplus", "sub_missing_link_surplus", "sub_expired_surplus", "sub_insp_exit_surplus", "none"],
@@ -144,6 +144,20 @@ pub(crate) fn inject_kind(prop: &str, kind: &str, s: &mut Scenario, r: &mut Rng,
             }
             s.block.signed_over = Some(Box::new(orig));
             Some(("C01", "the layout was changed after it was signed".into(), true))
+        }
+        "layout_keys_refiled" => {
+            // the signed layout, parsed, then changed in memory: its key table files a listed key once
+            // more under another id, or two listed keys under each other's ids. The id a key is filed
+            // under is part of the layout (it is what steps and signatures refer to).
+            let l = layout_mut(&mut s.block)?.clone();
+            if l.keys.is_empty() {
+                return None;
+            }
+            let kind = if l.keys.len() >= 2 && r.chance(1, 2) { "swap" } else { "extra" };
+            s.mem_refile = Some(kind);
+            let orig = s.block.meta.clone();
+            s.block.signed_over = Some(Box::new(orig));
+            Some(("C01", format!("the key table of the layout was re-filed after signing ({})", kind), true))
         }
         "not_a_layout" => {
             s.block.meta = SMeta::Link(SLink { name: "x".into(), mats: vec![], prods: vec![], stdout: String::new(), command: vec![], env: None });
@@ -451,6 +465,27 @@ pub(crate) fn inject_kind(prop: &str, kind: &str, s: &mut Scenario, r: &mut Rng,
             }
             Some((if prop == "C13" { "C13" } else { "C03" }, format!("a material of {} matches the product of {} under one digest algorithm only", cur, prev), true))
         }
+        "duplicate_step_unmet" => {
+            // a second step of the same name, before or after the first, authorizing only a key that
+            // delivers nothing: every step has to be satisfied, whatever it is called
+            let l = layout_mut(&mut s.block)?.clone();
+            let si = r.below(l.steps.len());
+            let x = other_key(pool, r, &l.steps[si].pubkeys);
+            if evidence_files(&s.dir, &l.steps[si].name).iter().any(|&f| s.dir.files[f].0 == format!("{}.{}.link", l.steps[si].name, prefix8(pool, x))) {
+                return None;
+            }
+            let lm = layout_mut(&mut s.block)?;
+            if !lm.keys.contains(&x) {
+                lm.keys.push(x);
+            }
+            let mut twin = lm.steps[si].clone();
+            twin.pubkeys = vec![x];
+            twin.ghost_keys.clear();
+            twin.threshold = *r.pick(&[0u32, 1, 1]);
+            let at = if r.chance(1, 2) { si } else { si + 1 };
+            lm.steps.insert(at, twin);
+            Some(("C02", format!("a second step named like another one authorizes only a key that delivered nothing ({})", l.steps[si].name), true))
+        }
         "threshold_zero_norules" => {
             // a step in the middle of the chain with threshold 0, no artifact rules and no evidence at all:
             // "at least one" still applies
@@ -499,7 +534,7 @@ pub(crate) fn inject_kind(prop: &str, kind: &str, s: &mut Scenario, r: &mut Rng,
         }
         // ---------------------------------------------------------------- C07 / C13
         "disagree_product_digest" | "disagree_material_path" | "disagree_extra_entry" | "disagree_t1" | "agree_extra_differs" | "pre_disagree" | "differing_links_t1" | "differing_links_t1_rules"
-        | "disagree_path_spelling" | "disagree_alias_entry" | "disagree_algorithm_set" => {
+        | "disagree_path_spelling" | "disagree_alias_entry" | "disagree_algorithm_set" | "disagree_empty_entry" => {
             let l = layout_mut(&mut s.block)?.clone();
             let want_t2 = !matches!(kind, "disagree_t1" | "differing_links_t1" | "differing_links_t1_rules");
             let si = (0..l.steps.len()).find(|&i| {
@@ -576,10 +611,24 @@ pub(crate) fn inject_kind(prop: &str, kind: &str, s: &mut Scenario, r: &mut Rng,
                             }
                             let i = r.below(n);
                             let d = lk.prods[i].1;
-                            lk.prods[i].1 = if d >= 4 && d % 4 == 0 { d + *r.pick(&[1u8, 2, 3]) } else { 21 };
+                            let v = d / 4;
+                            lk.prods[i].1 = if d >= 4 && d % 4 == 0 {
+                                d + *r.pick(&[1u8, 2, 3])
+                            } else if d >= 4 && d % 4 == 3 {
+                                // recorded as {sha256: v, sha512: v + 1}: the same sha512 value with another
+                                // sha256 value, alone, or the same sha256 value alone
+                                *r.pick(&[4 * (v + 1) + 2, 4 * (v + 1) + 1, 4 * v])
+                            } else {
+                                21
+                            };
                         }
                         "disagree_extra_entry" | "disagree_t1" => {
                             lk.prods.push(("extra-product".into(), 2));
+                        }
+                        "disagree_empty_entry" => {
+                            // an entry more, recorded without any digest
+                            let arts = if r.chance(1, 2) { &mut lk.prods } else { &mut lk.mats };
+                            arts.push(("extra-entry".into(), 0));
                         }
                         _ => {
                             lk.stdout.push_str(" (other output)");
@@ -772,6 +821,7 @@ pub(crate) fn inject_kind(prop: &str, kind: &str, s: &mut Scenario, r: &mut Rng,
                         let sp = subdir_pos?;
                         let step = l.steps[si].name.clone();
                         let full = kid(pool, owner);
+                        let cosigner_dirs: Vec<String> = b.sigs.iter().filter(|x| x.label != owner).map(|x| format!("{}.{}", step, prefix8(pool, x.label))).collect();
                         let mut cands: Vec<String> = vec![
                             step.clone(),
                             format!("{}.{}", step, full),
@@ -788,6 +838,10 @@ pub(crate) fn inject_kind(prop: &str, kind: &str, s: &mut Scenario, r: &mut Rng,
                                     cands.push(format!("{}.{}", a, short));
                                 }
                             }
+                        }
+                        // (a co-signer's directory is not the delegating functionary's)
+                        for _ in 0..6 {
+                            cands.extend(cosigner_dirs.iter().cloned());
                         }
                         cands.retain(|c| *c != subname && !s.dir.subs.iter().any(|x| x.0 == *c) && !s.dir.files.iter().any(|x| x.0 == *c));
                         if cands.is_empty() {
@@ -912,6 +966,16 @@ pub fn run(cfg: &Cfg, prop: &str) {
             if pre {
                 sink.oracle(out.events.iter().all(|e| !e.starts_with('|')), "an inspection of the layout ran although verification failed before the inspection stage", &replay);
             }
+        }
+        // the inspections of the top-level layout run in the order the layout lists them
+        if let SMeta::Layout(l) = &s.block.meta {
+            let listed: Vec<&String> = l.inspect.iter().map(|i| &i.name).collect();
+            let ran: Vec<&String> = out.top_events_in_order.iter().collect();
+            let expected: Vec<&String> = listed.iter().filter(|n| ran.contains(n)).cloned().collect();
+            sink.oracle(ran == expected, &format!("the inspections did not run in the order the layout lists them (listed {:?}, ran {:?})", listed, ran), &replay);
+        }
+        for w in &out.inspection_material_faults {
+            sink.oracle(false, w, &replay);
         }
         if out.ok {
             sink.oracle(out.summary_extra.is_none(), &format!("the summary link carries more than the first step's materials and the last step's products, command and byproducts: {}", out.summary_extra.clone().unwrap_or_default()), &replay);
